@@ -76,8 +76,8 @@ class InferenceThread(BackgroundThread):
     @override
     def on_paused(self) -> None:
         """Handle thread pause event."""
-        super().on_paused()
         self._interaction.on_paused()
+        super().on_paused()  # Acknowledge only after the hooks have finished.
 
     @override
     def on_resumed(self) -> None:
